@@ -34,6 +34,8 @@ from ..tlc import MachineryError
 TOL = 1e-9
 CHUNK = 100
 LIBMOD = "c06lib"
+SHADOWS = [{}, {"y": Fraction(7), "z": Fraction(11), "i": Fraction(5, 2)},
+           {"a": Fraction(13), "b": Fraction(17), "c": Fraction(19), "y": Fraction(7), "z": Fraction(11), "x": Fraction(3)}]
 _STATE: dict = {}          # set in the parent before forking: module directory, lib, consts
 
 
@@ -58,6 +60,10 @@ def render_all(ctx: Ctx, progs: list[dict], lib: dict, consts: dict) -> None:
     for c0 in range(0, len(progs), CHUNK):
         chunk = progs[c0:c0 + CHUNK]
         fns, styles = dict(libfns), {}
+        # name coincidence as a regular dimension: module-level float constants named like nothing (0), like the
+        # locals (1), like the parameters and the locals (2).  Python scoping makes them invisible to the functions.
+        mode = chunk[0]["shadow"] if "shadow" in chunk[0] else (c0 // CHUNK) % 3
+        mconsts = {**consts, **SHADOWS[mode]}
         for j, p in enumerate(chunk):
             name = f"f{c0 + j}"
             p["mod"], p["fn"] = f"c06m_{c0 // CHUNK}", name
@@ -66,9 +72,11 @@ def render_all(ctx: Ctx, progs: list[dict], lib: dict, consts: dict) -> None:
             fns[name] = {"params": p["params"], "body": p["body"]}
             styles[name] = Style(call_prefix=LIBMOD + "." if st["call"] == "mod" else "",
                                  const_prefix=LIBMOD + "." if st["const"] == "mod" else "")
-        src = render.module_src(fns, consts, imports=[LIBMOD], styles=styles)
+        for p in chunk:
+            p["shadow"] = mode
+        src = render.module_src(fns, mconsts, imports=[LIBMOD], styles=styles)
         render.write_module(d, p["mod"], src)
-        srcx = render.module_src(fns, consts, imports=[LIBMOD + "x as " + LIBMOD], styles=styles, exact=True)
+        srcx = render.module_src(fns, mconsts, imports=[LIBMOD + "x as " + LIBMOD], styles=styles, exact=True)
         render.write_module(d, p["mod"].replace("c06m_", "c06x_"), srcx)
 
 
@@ -405,11 +413,12 @@ CONSTANTS
     IteOn = {ite}
     CallOn = {calls}
     AugOn = {aug}
+    PassOn = {passon}
     ChainOn = {chain}
     LoopOn = {loop}
     MaxToks = 100
     MinStmts = {minst}
-    MaxStmts = 4
+    MaxStmts = {maxst}
     MaxDepth = {depth}
     MaxNest = 2
     Sim = TRUE
@@ -422,21 +431,26 @@ INVARIANTS EmitLib PWTheorem LibTheorem WellFormedAlways
 PROFILES = {
     # every construct the translator claims to support, shallow expressions: control flow dominates
     "core1": dict(arities="{1, 2}", locals='{"y"}', consts='{"K"}', un='{"neg"}', bin='{"add", "sub", "mul", "div"}',
-                  chains="TRUE", boolon="{}", ite="TRUE", calls='{"sub2", "pick", "loc", "ratio"}', minst=2, depth=1, aug="{}", loop="FALSE", chain="FALSE"),
+                  chains="TRUE", boolon="{}", ite="TRUE", calls='{"sub2", "pick", "loc", "ratio"}', minst=2, depth=1, aug="{}", loop="FALSE", chain="FALSE", passon="FALSE", maxst=4),
     "core2": dict(arities="{1, 2}", locals='{"y", "z"}', consts='{"K", "H"}', un='{"neg"}',
                   bin='{"add", "sub", "mul", "div", "pow"}', chains="TRUE", boolon="{}", ite="TRUE",
                   calls='{"sub2", "subxy", "pick", "loc", "nest", "kmul", "ratio"}', minst=3, depth=2, aug="{}",
-                  loop="FALSE", chain="FALSE"),
+                  loop="FALSE", chain="FALSE", passon="TRUE", maxst=4),
     # just outside the subset: assignment to a parameter, augmented assignment, while / for loops (must be refused)
     "outside": dict(arities="{1, 2}", locals='{"y", "a"}', consts='{"K"}', un='{"neg"}', bin='{"add", "sub", "mul"}',
                     chains="FALSE", boolon="{}", ite="FALSE", calls='{"sub2"}', minst=3, depth=1,
-                    aug='{"add", "mul", "sub"}', loop="TRUE", chain="TRUE"),
+                    aug='{"add", "mul", "sub"}', loop="TRUE", chain="TRUE", passon="TRUE", maxst=4),
+    # guards: up to 6 statements, nested ifs / empty (pass) branches that fall through without binding anything,
+    # followed by statements that re-bind a name (a local or a parameter) from its own old value
+    "guard": dict(arities="{1, 2}", locals='{"y", "a"}', consts="{}", un="{}", bin='{"sub", "mul", "div"}',
+                  chains="FALSE", boolon="{}", ite="FALSE", calls="{}", minst=3, depth=1, aug="{}", loop="FALSE",
+                  chain="FALSE", passon="TRUE", maxst=6),
     # the whole grammar (min / max / abs / and / or / not are refused by the translator today)
     "full": dict(arities="{2, 3}", locals='{"y", "z"}', consts='{"K", "H"}', un='{"neg", "abs"}',
                  bin='{"add", "sub", "mul", "div", "pow", "floordiv", "mod", "min", "max"}', chains="TRUE",
                  boolon='{"and", "or", "not"}', ite="TRUE",
                  calls='{"sub2", "subxy", "pick", "loc", "nest", "kmul", "ratio"}', minst=2, depth=2,
-                 aug='{"add"}', loop="TRUE", chain="TRUE"),
+                 aug='{"add"}', loop="TRUE", chain="TRUE", passon="TRUE", maxst=4),
 }
 
 
@@ -457,10 +471,10 @@ def generate(ctx: Ctx, rep: Report) -> tuple[list[dict], dict, dict]:
     runs = []
     if ctx.quick:
         runs.append(("Translate_small.cfg", None, "exhaustive: all programs <= 3 statements, <= 6 expression nodes"))
-        sims = [("core1", 40), ("core2", 25), ("outside", 20), ("full", 12)]
+        sims = [("core1", 40), ("core2", 22), ("guard", 30), ("outside", 20), ("full", 12)]
     else:
         runs.append(("Translate_medium.cfg", None, "exhaustive: all programs <= 3 statements, <= 7 expression nodes"))
-        sims = [("core1", 240), ("core2", 160), ("outside", 80), ("full", 80)]
+        sims = [("core1", 240), ("core2", 160), ("guard", 160), ("outside", 80), ("full", 80)]
     progs, lib, consts = {}, None, None
     for cfg, _, what in runs:
         res = ctx.tlc("Translate.tla", cfg, timeout=1500)
@@ -548,7 +562,7 @@ def run(ctx: Ctx) -> int:
 
 def judge(ctx: Ctx, rep: Report, progs: list[dict], results: list[dict], lib: dict) -> None:
     stats = {"programs": len(progs), "refused": 0, "translated": 0, "points_checked": 0, "fragile_points": 0,
-             "skipped_points": 0, "float_fragile": 0, "lazy_evaluations": 0, "refusal_kinds": {}, "by_origin": {}}
+             "skipped_points": 0, "float_fragile": 0, "lazy_evaluations": 0, "mismatches": 0, "mismatches_by_origin": {}, "refusal_kinds": {}, "by_origin": {}}
     bad_spec = []
     for p, r in zip(progs, results, strict=True):
         if r["problems"]:
@@ -572,8 +586,10 @@ def judge(ctx: Ctx, rep: Report, progs: list[dict], results: list[dict], lib: di
             if rr["checked"]:
                 rep.distinct.add((p["key"], tuple(rr["names"])))
             if rr["bad"]:
+                stats["mismatches"] += 1
+                stats["mismatches_by_origin"][p["origin"]] = stats["mismatches_by_origin"].get(p["origin"], 0) + 1
                 scn = {"params": p["params"], "body": p["body"], "calls": p["calls"], "consts": p["consts"],
-                       "style": p["style"], "names": rr["names"], "tag": rr["tag"], "source": src,
+                       "style": p["style"], "shadow": p["shadow"], "names": rr["names"], "tag": rr["tag"], "source": src,
                        "lib": lib, "consts_values": {c: str(v) for c, v in _STATE["consts"].items()},
                        "pts": [{"env": o["env"], "st": o["st"], "v": o["v"]} for o in p["pts"]]}
                 detail = {"expression": rr["expr"], "first_bad_points": rr["bad"][:3], "bad_points": len(rr["bad"]),
@@ -603,7 +619,7 @@ def replay(ctx: Ctx, doc: dict) -> int:
         return c06_oracle.replay(ctx, doc)
     lib, consts = scn["lib"], {c: Fraction(v) for c, v in scn["consts_values"].items()}
     p = {"params": scn["params"], "body": scn["body"], "calls": scn["calls"], "consts": scn["consts"], "pts": scn["pts"],
-         "origin": "replay"}
+         "origin": "replay", "shadow": scn.get("shadow", 0)}
     p["key"] = prog_key(p)
     p["use_rens"] = [{"tag": scn["tag"], "names": scn["names"]}]
     render_all(ctx, [p], lib, consts)
